@@ -11,7 +11,10 @@ from . import c07_cases as G
 PROPS_MODULE = "NessaiVerif.Props.C07"
 N_THEOREMS = 42
 MANIFEST = dict(
-    text="PARTIAL: machine-checked for the affine family, oracle-only for the rest. "
+    text="PARTIAL: machine-checked for the affine family, oracle-only for the rest. SOURCE TIE for the primitives: "
+         "rescale_zero_to_one, rescale_minus_one_to_one and their inverses are translated from the current source on every run "
+         "(harness/pylog2lean.py -> Gen/RescaleTx.lean) and rescale_primitives_source_eq_model re-proves them equal to the "
+         "model's primitives for every field and argument. "
          "Lean theorems (%d, any linearly ordered field, hence Q and R) about an executable model of ScaleAndShift/Rescale, "
          "RescaleToBounds (rescale_bounds, offset, update_bounds, pre/post hooks as parameters, boundary inversion "
          "lower/upper/both/none x split/duplicate with sign bit and edge decision as inputs), rescale_zero_to_one / "
@@ -38,7 +41,8 @@ MANIFEST = dict(
          "log|det| constant 1e-5, prime prior = prior/J up to a constant with the same support. NOT SHOWN in Lean: prime priors of "
          "the polar classes and of the GW converters, the GW converters themselves (co-moving-volume lookup table not covered at "
          "all), DeltaPhase, detect_edge's histogram decision (an input), float rounding. np.random.choice and chi.rvs are scripted.",
-    technique="Lean 4 proof over ordered fields / R + exact-rational differential correspondence + numeric oracle",
+    technique="Lean 4 proof over ordered fields / R + source-to-Lean translation of the affine rescaling primitives re-proved "
+              "equal to the model on every run + exact-rational differential correspondence + numeric oracle",
     ref="5/C07")
 
 EPS = 2.0 ** -52
@@ -47,6 +51,36 @@ BOUND_ROUNDING_KEY = "RescaleToBounds.update_prime_prior_bounds:prime-prior-supp
 
 
 # ----------------------------------------------------------------------------------------------- helpers
+def gen(ctx):
+    """regenerate Gen/RescaleTx.lean: the four affine rescaling primitives of nessai/utils/rescaling.py translated from the
+    current source (harness/pylog2lean.py: the returned log-Jacobian is a log-domain number, i.e. the Jacobian FACTOR of
+    the model); C07.rescale_primitives_source_eq_model is re-proved on every run."""
+    from . import core, py2lean, pylog2lean as P
+    parts, infos = [], {}
+    try:
+        for f in ("rescale_zero_to_one", "inverse_rescale_zero_to_one", "rescale_minus_one_to_one",
+                  "inverse_rescale_minus_one_to_one"):
+            sp = P.FnSpec(source="nessai/utils/rescaling.py", func=f, name=f,
+                          params=[("x", "x", P.LIN), ("xmin", "xmin", P.LIN), ("xmax", "xmax", P.LIN)], returns=[P.LIN, P.LOG],
+                          doc="returns (value, Jacobian factor = exp of the returned log-Jacobian)")
+            lean, info = P.translate_fn(core.REPO, sp)
+            parts.append(lean)
+            infos[f] = info
+    except py2lean.TranslationError as e:
+        ctx.broken(f"translator: {e}", "Gen/RescaleTx.lean was left as it was (the theorem is about the last translatable source)")
+        return
+    except (OSError, SyntaxError) as e:
+        ctx.broken(f"translator: cannot read/parse the source: {e}")
+        return
+    text = ("/-\nGENERATED by harness/pylog2lean.py (harness/c07.py gen) from the CURRENT nessai source — do not edit.\n"
+            "C07: affine rescaling primitives of nessai/utils/rescaling.py.\n-/\n"
+            "namespace NessaiVerif.Gen.RescaleTx\n\n"
+            "variable {K : Type} [Add K] [Sub K] [Mul K] [Div K] [Neg K] [OfNat K 0] [OfNat K 1] [NatCast K]\n\n"
+            + "\n".join(parts) + "\nend NessaiVerif.Gen.RescaleTx\n")
+    rewritten = py2lean.write_if_changed(core.LEAN / "NessaiVerif" / "Gen" / "RescaleTx.lean", text)
+    ctx.extra["generated"] = dict(infos, rewritten=rewritten)
+
+
 def F(v):
     return Fraction(float(v))
 
